@@ -93,13 +93,15 @@ def unordered_forest(msgs):
     def canon(n):
         if isinstance(n, WrittenAction):
             return ["A", n.action_type, n.status, n.start_message.contents.get("f19") if n.start_message else None,
-                    sorted((canon(c) for c in n.children), key=json.dumps)]
+                    sorted((x for x in (canon(c) for c in n.children) if x != ["R"]), key=json.dumps)]
         c = n.contents
         mt = c.get("message_type")
         if mt == "eliot:destination_failure":
             return ["R"]
         return ["M", mt, sorted([k, json.dumps(v, sort_keys=True, default=str)] for k, v in c.items() if k.startswith("f"))]
-    return sorted((canon(t.root()) for t in tasks), key=json.dumps)
+    # failure reports are not the program's messages; where they land depends on which call of a
+    # mask-driven destination fails, i.e. on the schedule: they are left out of the comparison
+    return sorted((x for x in (canon(t.root()) for t in tasks) if x != ["R"]), key=json.dumps)
 
 
 def model_threads(case):
